@@ -291,7 +291,7 @@ def _flush(ck, P, cfg):
     f = P.fn("stats_on_gvt")
     wr = [c for c in f.calls("file_write_chunk") if "stats_cur" in X.show(X.callee_args(c)[1])]
     zr = [c for c in f.calls() if c.callee in ("memset", "__builtin_memset", "__builtin___memset_chk") and "stats_cur" in X.show(X.callee_args(c)[0])]
-    if len(wr) == 1 and len(zr) == 1 and f.cfg.dominates(wr[0], zr[0]) and X.const_int(X.callee_args(wr[0])[2]) == P.record("stats_thread")["size"] and "rid" in X.show(X.callee_args(wr[0])[0]):
+    if len(wr) == 1 and len(zr) == 1 and f.cfg.dominates(wr[0], zr[0]) and X.const_int(X.callee_args(wr[0])[2]) == P.record("stats_thread")["size"] and "rid" in X.show(Q.resolve_local(f, X.callee_args(wr[0])[0])):
         ck.holds("C20.4", "flush-then-zero", wr[0].where, "the whole record is written to this thread's file, then zeroed", cfg)
     else:
         ck.violated("C20.4", "flush-then-zero", f.where, "stats_on_gvt does not write the whole per-thread record before zeroing it", cfg)
